@@ -316,6 +316,23 @@ int32 parseClientHelloExtensions(ssl_t *ssl, unsigned char **cp, unsigned short 
         return MATRIXSSL_ERROR;
     }
 
+# ifdef USE_STATELESS_SESSION_TICKETS
+    /* RFC 7627, 5.3: if the original session did not use the extended
+       master secret but this ClientHello offers it, the server must not
+       resume.  A ticket without the flag leaves the require flag at 0
+       (matrixUnlockSessionTicket); continue with a full handshake. */
+    if ((ssl->flags & SSL_FLAGS_RESUMED) && ssl->sid &&
+        ssl->sid->sessionTicketState == SESS_TICKET_STATE_USING_TICKET &&
+        ssl->extFlags.require_extended_master_secret == 0 &&
+        ssl->extFlags.extended_master_secret == 1)
+    {
+        ssl->flags &= ~SSL_FLAGS_RESUMED;
+        ssl->sid->sessionTicketState = SESS_TICKET_STATE_RECVD_EXT;
+        Memset(ssl->sessionId, 0, SSL_MAX_SESSION_ID_SIZE);
+        ssl->sessionIdLen = 0;
+    }
+# endif
+
 # if defined(USE_TLS_1_2) && defined(USE_CERT_PARSE)
     if (NGTD_VER(ssl, v_tls_with_signature_algorithms))
     {
